@@ -399,9 +399,10 @@ def main(run, replay=None):
     run.sample({"layer": "ActNorm", "walk_prefix": [[n, list(a), dict(d["params"])] for n, a, d in walks[0][:8]]})
     # ---------------- BatchNorm
     # (momentum, MaxUpdates, with load_state_dict into the live layer)
-    configs = [(Fraction(1, 2), 4, False), (Fraction(1, 10), 3, False), (Fraction(1, 4), 1, True)]
+    # (the boundary momenta too: 0 never moves the running statistics, 1 replaces them - the constructor accepts both)
+    configs = [(Fraction(1, 2), 4, False), (Fraction(1, 10), 3, False), (Fraction(1, 4), 1, True), (Fraction(0, 1), 2, False), (Fraction(1, 1), 2, False)]
     if thorough:
-        configs = [(Fraction(1, 2), 5, False), (Fraction(1, 10), 4, False), (Fraction(1, 4), 4, False), (Fraction(1, 2), 2, True)]
+        configs = [(Fraction(1, 2), 5, False), (Fraction(1, 10), 4, False), (Fraction(1, 4), 4, False), (Fraction(1, 2), 2, True), (Fraction(0, 1), 3, False), (Fraction(1, 1), 3, False)]
     for mom, maxu, with_load in configs:
         name = "MC_BN_%d_%d" % (mom.numerator, mom.denominator)
         res = T.run_tlc(name, bn_cfg(maxu, with_load=with_load), wrapper=bn_wrapper(name, mom), dot=True, name=name)
